@@ -443,7 +443,7 @@ func writeJSON(path string, v any) error {
 func sourceFilesOf(funcs map[string]string) map[string]string {
 	files := map[string]string{}
 	for _, f := range funcs {
-		if f != "" && strings.Contains(f, "/") && !strings.Contains(f, "/harness/") && !strings.Contains(f, "/build/gen/") {
+		if f != "" && strings.Contains(f, "/") && !strings.Contains(f, "/harness/") && !strings.Contains(f, "/build/gen/") && !strings.Contains(f, "zz_verif_") {
 			files[f] = ""
 		}
 	}
@@ -465,11 +465,11 @@ func sortedFuncs(m map[string]string, onlyRepo bool) []string {
 	return l
 }
 
-// primarySolver: z3 5.1.0 (z3-new) decides the queries about three times faster than 4.8.12 on this workload;
-// 4.8.12 and cvc5 re-decide a sample of them (solver diff).
+// primarySolver: z3 4.8.12 decides the queries (measured marginally faster than 5.1.0 under 16-way parallelism);
+// z3 5.1.0 (z3-new) and cvc5 re-decide a sample of them (solver diff).
 func primarySolver() []string {
-	if os.Getenv("VERIF_SOLVER") == "z3-4.8" {
-		return []string{"/usr/bin/z3", "-in", "-smt2"}
+	if os.Getenv("VERIF_SOLVER") == "z3-new" {
+		return []string{"z3-new", "-in", "-smt2"}
 	}
-	return []string{"z3-new", "-in", "-smt2"}
+	return []string{"/usr/bin/z3", "-in", "-smt2"}
 }
